@@ -282,7 +282,21 @@ class Interp:
         if isinstance(a, SObj) and isinstance(b, SObj) and a.cls == b.cls:
             # instances of one class merge on the attributes both descriptions carry (a contract
             # shape lists only the attributes it talks about)
-            return SObj(a.cls, {k: self.ite(c, a.attrs[k], b.attrs[k]) for k in a.attrs if k in b.attrs})
+            out, dropped = {}, False
+            for k in a.attrs:
+                if k in b.attrs:
+                    try:
+                        out[k] = self.ite(c, a.attrs[k], b.attrs[k])
+                    except Unsupported as ex:
+                        # a component that cannot be merged under a quantifier-bound condition (streams of nested objects): the
+                        # merged description does not carry it; reading it later is a contract-incomplete error, not a verdict
+                        if 'quantifier-bound' not in str(ex):
+                            raise
+                        dropped = True
+            o = SObj(a.cls, out)
+            if dropped or getattr(a, 'from_shape', False) or getattr(b, 'from_shape', False):
+                o.from_shape = True
+            return o
         if isinstance(a, SObj) and isinstance(b, SObj):
             # instances of different classes (entries of one cache: CIE / FDE): the merged description carries the common
             # attributes whose values can be merged; reading any other attribute of it is a contract-incomplete error
